@@ -68,6 +68,7 @@ func scenarios(thorough bool) []scen {
 	a := cer.Alloc[world.A(world.G)]
 	a.State = 3 // Verified
 	a.Stake = replica.Dna(500)
+	a.Balance = replica.Dna(200000) // (pays for fat transactions in the long session)
 	cer.Alloc[world.A(world.G)] = a
 	cer.Mempool = smallPool()
 	cer.Mempool.TxPoolAddrExecutableLimit = 3
@@ -97,6 +98,8 @@ func scenarios(thorough bool) []scen {
 		{Name: "ceremony(before flip lottery)", Opts: cer, Prefix: []string{"int G flip0", "block", "int G flip1", "block", "int G flip2", "block"}, Ops: cerOps},
 		{Name: "ceremony(short session)", Opts: cer, Prefix: []string{"int G flip0", "block", "int G flip1", "block", "int G flip2", "block", "jump", "jump"}, Ops: cerOps},
 		{Name: "ceremony(long session, G answered)", Opts: cer, Prefix: []string{"int G flip0", "block", "int G flip1", "block", "int G flip2", "block", "jump", "jump", "int G cer:hash+1", "block", "jump"}, Ops: cerOps},
+		{Name: "ceremony(long session): fat predecessors of a priority tx", Opts: cer, Prefix: []string{"int G flip0", "block", "int G flip1", "block", "int G flip2", "block", "jump", "jump", "int G cer:hash+1", "block", "jump"},
+			Ops: []string{"int G fat+1", "int G fat+2", "int G fat+3", "int G cer:short+4", "int G cer:short+3", "int G cer:long+4", "ext X1 n1a", "block"}},
 		{Name: "ceremony(after long session)", Opts: cer, Prefix: []string{"int G flip0", "block", "int G flip1", "block", "int G flip2", "block", "jump", "jump", "int G cer:hash+1", "block", "jump", "int G cer:short+1", "int G cer:long+2", "block", "jump"}, Ops: cerOps},
 	}
 	return s
@@ -128,6 +131,7 @@ func actor(name string) int {
 
 var fatPayload = make([]byte, 150*1024)
 var hugePayload = make([]byte, 600*1024)
+var fat170 = make([]byte, 170*1024)
 
 // fixedTx builds the menu transaction `what` of `from`; absolute nonces, fixed fees => the
 // same label always denotes the same signed transaction.
@@ -184,6 +188,10 @@ func (x *exec) relTx(from int, what string) *types.Transaction {
 	case strings.HasPrefix(what, "flip"):
 		t := world.Dyn("submitFlip " + world.ActorNames[from] + " " + what[4:])
 		return t.Build(b)
+	case strings.HasPrefix(what, "fat+"): // a 170 KB transfer: three of them outweigh the block gas cap
+		d, _ := strconv.Atoi(what[4:])
+		b.SetNext(from, base+uint32(d))
+		return b.Tx(world.Spec{From: from, Type: types.SendTx, To: world.PA(world.Z), Amount: replica.Dna(1), Payload: fat170, MaxFee: replica.Dna(6000)})
 	case strings.HasPrefix(what, "n+"):
 		d, _ := strconv.Atoi(what[2:])
 		b.SetNext(from, base+uint32(d))
@@ -760,7 +768,7 @@ func main() {
 		concurrent(run)
 		return
 	}
-	run.SetBudget(6*60e9, 60*60e9)
+	run.SetBudget(6*60e9, 25*60e9)
 	depth := 4
 	if run.Thorough() {
 		depth = 5
@@ -771,6 +779,7 @@ func main() {
 		run.Cap("part 1 skipped (VERIF_C14_ONLY=conc)")
 	}
 	concurrent(run)
+	report.RaceKey = raceKey
 	run.RacePass()
 	run.Set("evaluations", run.Get("invariant_evaluations"))
 	run.Set("distinct_nontrivial", run.Get("states"))
